@@ -337,7 +337,7 @@ def gen_churn(rng):
     data_type = data_type_of(dtn)
     default = {'int': 0, 'uint': 0, 'float': 0.0, 'bool': False, 'obj': None, 'mapper': None}[dtn] \
         if rng.random() < 0.5 else None
-    n = rng.randint(70, 150)
+    n = rng.randint(70, 150) if rng.random() < 0.6 else rng.randint(258, 420)     # (dense growth past 256 slots)
 
     def key(i):
         return (i, (0,))
